@@ -526,7 +526,16 @@ def rule_bm(repo: Repo, rep: Report) -> int:
     body = statement_texts(cl)
     rep.expect("corrected[pos] = 1.0 - corrected[pos]" in body and "error_positions = self._find_error_locations(error_locator)" in body and "error_locator = self.berlekamp_massey_algorithm(syndrome)" in body and "syndrome = self.encoder.calculate_syndrome_polynomial(r_field)" in body and "decoded[i] = self.encoder.extract_message(corrected)" in body, "BM", cl, "syndrome -> locator -> Chien positions -> flip exactly those bits -> encoder.extract_message", "the decoding chain", "decoding chain changed")
     zero = [s for s in stmts_of(cl.body) if isinstance(s, ast.If) and unparse(s.test) == "all((s == self.field.zero for s in syndrome))"]
-    rep.expect(len(zero) == 1, "BM", cl, "zero syndrome: the word is returned uncorrected", "codewords are not modified", "zero-syndrome shortcut changed")
+    if len(zero) != 1:
+        # another spelling of the shortcut's test: it is evaluated on syndrome vectors over GF(16) (own field model): it
+        # may hold for the all-zero vector only - field addition is XOR, so "the components sum to zero" is NOT that test
+        zst, zd = zero_syndrome_test_evaluated(cl)
+        if zst is None:
+            rep.undecided("BM", cl, "zero syndrome: the word is returned uncorrected", f"zero-syndrome shortcut changed ({zd})")
+        else:
+            rep.add("BM", cl, "zero-syndrome shortcut: its test evaluated on syndrome vectors over GF(16)", zst, zd)
+    else:
+        rep.ok("BM", cl, "zero syndrome: the word is returned uncorrected", "codewords are not modified")
     n += 2
     alg = repo.method(ci, "berlekamp_massey_algorithm")
     est_, ed_ = bm_evaluated(alg)
@@ -612,6 +621,38 @@ def hamming_position_evaluated(sp: FuncInfo):
     return OK, f"position j for the syndrome H[:, j], n for the zero syndrome, on {count} (code, layout, column) cases"
 
 
+def zero_syndrome_test_evaluated(cl: FuncInfo):
+    """The `if` of decode_block that returns the received word unchanged: its test, evaluated with syndrome vectors of field
+    elements (gf2.FieldModel over GF(16)), must be true for the all-zero vector and false for every other one - also for
+    vectors whose components cancel under field addition."""
+    from .. import gf2
+    from ..constfold import Folder, PySeq, Unfoldable
+
+    cands = []
+    for st in stmts_of(cl.body):
+        if isinstance(st, ast.If) and "syndrome" in unparse(st.test) and any(isinstance(x, (ast.Continue, ast.Return)) or (isinstance(x, ast.Assign) and "extract_message" in unparse(x)) for b_ in st.body for x in ast.walk(b_)):
+            cands.append(st)
+    if len(cands) != 1:
+        return None, f"{len(cands)} candidate tests on the syndrome"
+    test = cands[0].test
+    field = gf2.FieldModel(4, 0b10011)
+    el = lambda v: gf2.FieldElem(field, v)  # noqa: E731
+    vectors = [([0, 0, 0, 0], True), ([5, 5, 0, 0], False), ([3, 0, 0, 3], False), ([1, 2, 3, 0], False), ([0, 0, 0, 9], False), ([7, 7, 7, 7], False), ([6, 9, 15, 0], False), ([0, 4, 0, 0], False)]
+    for vals, want in vectors:
+        f = Folder({"syndrome": PySeq([el(v) for v in vals])}, {"self.field": field})
+        try:
+            got = f.fold(test)
+        except (Unfoldable, TypeError) as exc:
+            return None, f"test not evaluable ({exc})"
+        if isinstance(got, list):
+            return None, "the test is tensor-valued"
+        if bool(got) != want:
+            if want:
+                return VIOLATION, "the all-zero syndrome is not recognised as 'no error': codewords are sent through the correction"
+            return VIOLATION, f"`{unparse(test)[:70]}` holds for the non-zero syndrome {vals} (its components cancel under field addition, which is XOR): a received word with errors is returned uncorrected - e.g. a single error at position 0 has syndrome components alpha^0 = 1 in every position"
+    return OK, f"true for the all-zero vector only ({len(vectors)} vectors over GF(16), including ones whose components cancel)"
+
+
 def rule_hamming(repo: Repo, rep: Report) -> int:
     ci = repo.cls(HAM, "HammingCodeEncoder")
     sp = repo.method(ci, "_syndrome_to_error_position")
@@ -651,6 +692,11 @@ def rule_hamming(repo: Repo, rep: Report) -> int:
 
 
 def run(repo: Repo, rep: Report, tier: str) -> None:
+    # a decoder answers every word from the same tables: no method modifies a stored table entry (a coset leader, a
+    # codebook row) through a local alias (rule shared with C20)
+    from .c20 import rule_state_alias
+
+    rule_state_alias(repo, rep, [repo.cls(SL, "SyndromeLookupDecoder"), repo.cls(ML, "BruteForceMLDecoder"), repo.cls(BM, "BerlekampMasseyDecoder"), repo.cls(RMD, "ReedMullerDecoder")])
     if tier == "thorough":
         ci_ = repo.cls(HAM, "HammingCodeEncoder")
         sp_ = repo.method(ci_, "_syndrome_to_error_position")
